@@ -62,8 +62,13 @@ def main():
         # not about the machinery: every check's input families are inputs on which the property promises a result.
         tb = traceback.extract_tb(ex.__traceback__)
         lib = os.path.abspath(REPO) + '/teneva/'
-        if tb and os.path.abspath(tb[-1].filename).startswith(lib) and 'ctx' in locals():
-            where = '%s:%s' % (os.path.relpath(tb[-1].filename, REPO), tb[-1].name)
+        # the exception surfaced inside the library: in one of its own frames, or in NumPy / SciPy code the library called
+        # (no harness frame between the library frame and the point where it was raised)
+        last_h = max([j for j, f in enumerate(tb) if '/harness/' in f.filename] or [-1])
+        lib_frames = [f for f in tb[last_h + 1:] if os.path.abspath(f.filename).startswith(lib)]
+        if lib_frames and 'ctx' in locals():
+            lf = lib_frames[-1]
+            where = '%s:%s' % (os.path.relpath(lf.filename, REPO), lf.name)
             caller = next((f for f in reversed(tb) if '/harness/' in f.filename), None)
             ctx.violation('raised:' + where, 'the library raised %s: %s in %s (called from %s line %s) on an input of the check'
                           % (type(ex).__name__, ex, where, caller.name if caller else '?', caller.lineno if caller else '?'),
